@@ -166,7 +166,11 @@ theorem step_keeps (s : BState) (c : Call) (h : c.isInitSpecial = false) : Keeps
     · exact K0
     · exact ⟨rfl, Nat.le_succ _, rfl⟩
   case procEdgeEnd => exact K0
-  case procSelect n => simp only [step]; exact keeps_addSelectSymbol _ _ _
+  case procSelect n =>
+    simp only [step]
+    cases s.currentEdge with
+    | none => exact keeps_error s
+    | some p => exact keeps_addSelectSymbol _ _ _
   case procGuard => simp only [step]; exact keeps_setEdge _ _
   case procSync =>
     simp only [step]
